@@ -281,7 +281,7 @@ PROPS = {
                        "followed by the elements of list. Top-level statements (unit interp_toplevel): Interpreter::eval_expression_or_definition yields the value of an "
                        "expression statement in the frame given; a definition evaluates its expression in that frame and binds the name to exactly that value in "
                        "THAT frame (a history fact on define) and yields no value. Variable lookup inside a frame chain and the binding of the fixed parameters are NOT proved: "
-                       "for them there is only the witness grid core_eval_witness (83 programs over the core forms with the value R7RS assigns: lexical scope, "
+                       "for them there is only the witness grid core_eval_witness (about 95 programs over the core forms with the value R7RS assigns: lexical scope, "
                        "fixed / rest parameters, define sugar, operands evaluated once, internal definitions, higher-order procedures, apply), a test, not a proof.",
         "unverified": ["variable lookup and assignment (LexicalScope::get / set over Rc<RefCell<HashMap<String, Value>>>): no contract -- `innermost binding` is not proved",
                        "the binding of the fixed parameters (an FnMut closure over the argument iterator inside apply_scheme_procedure: replaced by a wrapper with an ASSUMED "
